@@ -356,6 +356,84 @@ def listener_write_facts(repo):
     return out
 
 
+def calculate_purity_facts(repo):
+    """for every shipped problem: what the evaluation path (Calculate and the methods it calls on self / self.function) assigns to,
+    other than local names and the supplied holder's value; what it returns; writes through its point argument"""
+    plans = [('iOpt/problems/hill.py', 'Hill', None), ('iOpt/problems/shekel.py', 'Shekel', None), ('iOpt/problems/shekel4.py', 'Shekel4', None),
+             ('iOpt/problems/rastrigin.py', 'Rastrigin', None), ('iOpt/problems/xsquared.py', 'XSquared', None), ('iOpt/problems/stronginC3.py', 'StronginC3', None),
+             ('iOpt/problems/grishagin.py', 'Grishagin', ('iOpt/problems/grishagin_function/grishagin_function.py', 'GrishaginFunction')),
+             ('iOpt/problems/GKLS.py', 'GKLS', ('iOpt/problems/GKLS_function/gkls_function.py', 'GKLSFunction'))]
+    rows = []
+    rets = []
+
+    def reach(cls, start):
+        fns = {f.name: f for f in cls.body if isinstance(f, ast.FunctionDef)}
+        seen, todo = [], [start]
+        while todo:
+            n = todo.pop()
+            if n in seen or n not in fns:
+                continue
+            seen.append(n)
+            for c in ast.walk(fns[n]):
+                if isinstance(c, ast.Call) and isinstance(c.func, ast.Attribute) and isinstance(c.func.value, ast.Name) and c.func.value.id == 'self':
+                    todo.append(c.func.attr)
+        return [fns[n] for n in seen]
+
+    def writes(fn, params):
+        w = []
+        for n in ast.walk(fn):
+            tg = n.targets if isinstance(n, ast.Assign) else ([n.target] if isinstance(n, (ast.AugAssign, ast.AnnAssign)) else [])
+            for t in tg:
+                for e in (t.elts if isinstance(t, ast.Tuple) else [t]):
+                    base = e
+                    while isinstance(base, (ast.Attribute, ast.Subscript)):
+                        base = base.value
+                    if isinstance(e, ast.Name):
+                        continue
+                    root = base.id if isinstance(base, ast.Name) else '?'
+                    if root == 'self' or root in params or root == '?':
+                        w.append(ast.unparse(e))
+                    elif isinstance(e, (ast.Attribute, ast.Subscript)) and root not in _local_names(fn):
+                        w.append(ast.unparse(e))
+            if isinstance(n, (ast.Global, ast.Nonlocal)):
+                w.append(ast.unparse(n))
+            if isinstance(n, ast.Call) and isinstance(n.func, ast.Attribute) and n.func.attr in ('append', 'extend', 'fill', 'sort', 'clear', 'update', 'setdefault', 'pop', 'insert'):
+                base = n.func.value
+                while isinstance(base, (ast.Attribute, ast.Subscript)):
+                    base = base.value
+                if isinstance(base, ast.Name) and (base.id == 'self' or base.id in params):
+                    w.append(ast.unparse(n)[:50])
+        return w
+
+    def _local_names(fn):
+        out = set()
+        for n in ast.walk(fn):
+            if isinstance(n, ast.Assign):
+                for t in n.targets:
+                    if isinstance(t, ast.Name):
+                        out.add(t.id)
+            if isinstance(n, ast.AnnAssign) and isinstance(n.target, ast.Name):
+                out.add(n.target.id)
+        return out
+    for rel, cname, inner in plans:
+        cls = find_class(parse(repo, rel), cname)
+        calc = find_method(cls, 'Calculate')
+        params = [a.arg for a in calc.args.args[1:]]
+        ws = []
+        for fn in reach(cls, 'Calculate'):
+            ws += writes(fn, [a.arg for a in fn.args.args[1:]])
+        if inner:
+            icls = find_class(parse(repo, inner[0]), inner[1])
+            for fn in reach(icls, 'Calculate'):
+                ws += ['%s.%s: %s' % (inner[1], fn.name, x) for x in writes(fn, [a.arg for a in fn.args.args[1:]])]
+        ws = [x for x in ws if x != 'functionValue.value']
+        rows.append('(%s, %s)' % (cstr(cname), clist(map(cstr, ws))))
+        r = [ast.unparse(n.value) for n in ast.walk(calc) if isinstance(n, ast.Return) and n.value is not None]
+        rets.append('(%s, %s)' % (cstr(cname), clist(map(cstr, r))))
+    return ['Definition calculate_extra_writes : list (string * list string) := %s.' % clist(rows),
+            'Definition calculate_returns : list (string * list string) := %s.' % clist(rets)]
+
+
 def skeleton_facts(repo):
     """normalised statement skeletons of the driver methods the state-machine model mirrors"""
     out = []
@@ -414,7 +492,7 @@ def skeleton_facts(repo):
 def translate(repo):
     parts = ['(* GENERATED by tools/translate/facts_tr.py from the iOpt sources - do not edit *)',
              'From Coq Require Import String List Bool.', 'Import ListNotations.', 'Open Scope string_scope.', '']
-    for fn in (solver_facts, evolvent_copy_facts, refine_facts, mutable_default_facts, listener_facts, listener_write_facts, skeleton_facts):
+    for fn in (solver_facts, evolvent_copy_facts, refine_facts, mutable_default_facts, listener_facts, listener_write_facts, calculate_purity_facts, skeleton_facts):
         parts += fn(repo)
         parts.append('')
     return '\n'.join(parts)
